@@ -397,7 +397,80 @@ def r20_14(ctx):
     q.need(n_ >= 5, 'proxy methods with arguments not found')
 
 
+
+def r20_15(ctx):
+    ctx.rule('R20.15', 'whatever the referent raises goes back to the caller as that exception: the call of the referent '
+                       'method sits in its own try whose handler for Exception builds the #ERROR reply -- it must not '
+                       'fall through to the dispatcher\'s handlers, which take AttributeError / KeyError for "no such '
+                       'method / object"', floor=2)
+    m = ctx.model
+    fi = m.func('managers:Server.serve_client')
+    fdefs = [(dn, t, v) for (dn, t, v) in q.assigns(fi, None) if isinstance(v, ast.Call) and fi.callee(v) == 'getattr'
+             and isinstance(t, ast.Name)]
+    q.need(fdefs, 'serve_client: the lookup of the referent method was not found')
+    F = fdefs[0][1].id
+    calls = [(n, c) for (n, c) in q.calls(fi, F)]
+    q.need(calls, 'serve_client: the call of the referent method was not found')
+    for (n, c) in calls:
+        trys = q.enclosing_trys(fi, c)
+        inner = [(tr, part, h) for (tr, part, h) in trys if part == 'body']
+        ok = False
+        why = 'the referent call is not inside a try'
+        if inner:
+            tr = inner[0][0]
+            broad = [h for h in tr.handlers if h.type is None or ast.unparse(h.type) in ('Exception', 'BaseException')]
+            makes_error = [h for h in broad if any(isinstance(x, ast.Tuple) and x.elts and isinstance(x.elts[0], ast.Constant)
+                                                    and x.elts[0].value == '#ERROR' for st in h.body for x in ast.walk(st))]
+            narrow_first = [h for h in tr.handlers if h not in broad and tr.handlers.index(h) < (tr.handlers.index(broad[0]) if broad else 99)]
+            only_the_call = all(not any(isinstance(x, ast.Call) and fi.callee(x) == 'getattr' for x in ast.walk(st)) for st in tr.body)
+            ok = bool(makes_error) and not narrow_first and only_the_call
+            why = 'try: res = function(*args, **kwds) / except Exception as exc: msg = (\'#ERROR\', exc)' if ok else \
+                'the innermost try around the referent call does not turn every Exception into #ERROR first: an ' \
+                'AttributeError or KeyError raised by the referent is taken for a dispatch error'
+        ctx.ob('R20.15', 'serve_client:referent-exceptions-are-#ERROR', ok, fi, c, why)
+    rets = [x for x in walk_own(fi.node) if isinstance(x, ast.Tuple) and len(x.elts) == 2 and
+            isinstance(x.elts[0], ast.Constant) and x.elts[0].value == '#RETURN']
+    res = [ast.unparse(dn.ast.targets[0]) for (dn, t, v) in q.assigns(fi, None) if v is not None and any(v is c for (n, c) in calls)]
+
+    def is_a_result(e):
+        # a name every definition of which is the value returned by the referent method (or by the fallback that
+        # stands in for a method the referent lacks)
+        fb = {t.id for (dn, t, v) in q.assigns(fi, None) if isinstance(t, ast.Name) and isinstance(v, ast.Subscript)
+              and 'fallback_mapping' in ast.unparse(v)}
+
+        def the_call(v):
+            return isinstance(v, ast.Call) and (fi.callee(v) in ({F} | fb) or 'fallback_mapping' in ast.unparse(v.func))
+        if the_call(e):
+            return True         # the result handed over where it is produced
+        if not isinstance(e, ast.Name):
+            return False
+        defs = [v for (dn, t, v) in q.assigns(fi, e.id)]
+        return bool(defs) and all(the_call(v) for v in defs)
+    ok = bool(rets) and bool(res) and all(is_a_result(x.elts[1]) for x in rets)
+    ctx.ob('R20.15', 'serve_client:#RETURN-carries-the-result', ok, fi, rets[0] if rets else None,
+           "msg = ('#RETURN', %s) and nothing else" % (res[0] if res else '?') if ok else
+           'a #RETURN reply carries something else than what the referent returned')
+
+
+def r20_16(ctx):
+    ctx.rule('R20.16', 'wait_for of the condition proxy evaluates the predicate after every wait, timed out or not (the '
+                       'local Condition does: the predicate may have become true without a notify, or while the waiter '
+                       're-acquired the lock)', floor=1)
+    m = ctx.model
+    fi = m.func('managers:ConditionProxy.wait_for')
+    cfg = fi.cfg
+    P = fi.positional_params()[1]
+    waits = [n for (n, c) in q.calls(fi, 'self.wait')]
+    evals = [n for (n, c) in q.calls(fi, P)]
+    q.need(waits and evals, 'ConditionProxy.wait_for: wait / predicate calls not found')
+    ok, w = cfg.must_pass(waits, [cfg.exit], evals, skip_labels=('x',))
+    ctx.ob('R20.16', 'wait_for:predicate-after-every-wait', ok, fi, waits[0],
+           'every path from self.wait(...) to the return passes %s()' % P, path=w)
+
+
 def run(ctx):
+    r20_15(ctx)
+    r20_16(ctx)
     r20_13(ctx)
     r20_14(ctx)
     r20_12(ctx)
@@ -425,6 +498,8 @@ def run(ctx):
 
 _M = 'billiard/managers.py'
 MUTANTS = [
+    ('referent-errors-fall-through-to-the-dispatcher', 'billiard/managers.py', "                try:\n                    res = function(*args, **kwds)\n                except Exception as exc:\n                    msg = ('#ERROR', exc)\n                else:\n", "                res = function(*args, **kwds)\n                if True:\n", 'R20.15'),
+    ('wait_for-skips-the-predicate-after-a-timeout', 'billiard/managers.py', "            self.wait(waittime)\n            result = predicate()\n", "            if not self.wait(waittime):\n                break\n            result = predicate()\n", 'R20.16'),
     ('iadd-sends-items-one-by-one', 'billiard/managers.py', "        self._callmethod('extend', (value,))\n        return self\n", "        for item in value:\n            self._callmethod('append', (item,))\n        return self\n", 'R20.13'),
     ('acquire-makes-up-a-timeout', 'billiard/managers.py', "        args = (blocking, ) if timeout is None else (blocking, timeout)\n", "        args = (blocking, -1) if timeout is None else (blocking, timeout)\n", 'R20.14'),
     ('incref-skipped-for-a-known-referent', _M, "    def _incref(self):\n        conn = self._Client(self._token.address, authkey=self._authkey)\n",
